@@ -66,6 +66,9 @@ class CollectionIterator {
 };
 
 class CollectionData {
+#ifdef BBLANCHON_ARDUINOJSON_VERIF
+  friend struct ::ArduinoJsonVerifInspector;
+#endif
   SlotId head_ = NULL_SLOT;
   SlotId tail_ = NULL_SLOT;
 
